@@ -180,3 +180,33 @@ def e_unlock(k: int) -> bool:
             ok = ki != pi
         tick('e_unlock', [ki, pi])
         return ok
+
+
+def e_unlock_long(k: int) -> bool:
+    """Keys whose user KDF is blake2b (password = hash key, at most 64 bytes): the 64-byte password unlocks, every near
+    miss (one byte changed, one byte missing, one or more bytes appended, same first 64 bytes) does not.
+    pre: 0 <= k < 2 * 6
+    post: _
+    """
+    shared, wi = digits(k, [2, 6])
+    with NoTracing():
+        rt.determinism(47)
+        be = rt.MemBackend()
+        repo = Repository(be, concurrent=1, cache_directory=None)
+        P = bytes(range(33, 97))                      # 64 bytes
+        st = rt.fast_settings(True)
+        st['encryption']['kdf'] = {'name': 'blake2b'}
+        with rt.silence():
+            init = rt.MiniLoop().run_until_complete(repo.init(password=P, settings=st))
+            key = init.key
+            if shared:
+                key = rt.MiniLoop().run_until_complete(repo.add_key(password=P, shared=True, settings={'encryption': {'kdf': {'name': 'blake2b'}}})).new_key
+        wrong = [P, P[:-1] + b'?', P[:-1], P + b'x', P + b'\x00', P + bytes(40)][wi]
+        r = Repository(be, concurrent=1, cache_directory=None)
+        try:
+            rt.MiniLoop().run_until_complete(r.unlock(password=wrong, key=key))
+            opened = True
+        except Exception:
+            opened = False
+        tick('e_unlock_long', [shared, wi])
+        return opened == (wi == 0)
